@@ -26,7 +26,7 @@ class Prop:
     id = "C40"
     level = "fault_enumeration"
     engine = "VT"
-    quick_runs = 12000
+    quick_runs = 25000
     thorough_runs = 500000
     chunk = 60
     rule = ("per seeded scenario (one cold/hot/sync inner timeline; using with counting resources, finally_action, do_finally, do_action, "
